@@ -95,6 +95,9 @@ func (s *Sink) Write(p []byte) (int, error) {
 // WriteString makes Sink usable where *os.File's WriteString was used.
 func (s *Sink) WriteString(str string) (int, error) { return s.Write([]byte(str)) }
 
+// ResetCalls restarts the numbering of Write calls (fault plans count per operation).
+func (s *Sink) ResetCalls() { s.calls = 0; s.Sizes = nil }
+
 // Calls is the number of Write calls seen.
 func (s *Sink) Calls() int { return s.calls }
 
